@@ -3,8 +3,8 @@ VIEW view
 CONSTANTS
   Uris = {"u1"}
   Texts = {"t1","t2"}
-  MaxMsgs = 2
-  MsgKinds = {"change","close","cfg"}
+  MaxMsgs = 3
+  MsgKinds = {"open","change","close","cfg"}
   MaxCfg = 1
   MaxDisk = 0
   OnDisk = {}
@@ -12,5 +12,7 @@ CONSTANTS
   InlineChange = TRUE
   InlineClose = TRUE
   EnableReindex = FALSE
-  InitOpen = {"u1"}
+  InitOpen = {}
+  Outside = {"u1"}
+  CfgAddsLib = TRUE
 INVARIANTS Emit
